@@ -1,0 +1,229 @@
+//! C14 adapter: the real `RoutingTable` behind the line protocol.
+//!
+//! The Kademlia key of every peer is dictated by the harness through
+//! `crate::verif::set_key_override` (consulted by `Key::from(PeerId)`), so that all 256 k-buckets
+//! are reachable. Peers are the deterministic `crate::verif::peer(i)`; anything else found in a
+//! bucket is a placeholder pushed by `KBucket::entry` and is printed as `j`.
+//!
+//! Operations (`<key>` = 64 hex digits):
+//!   local <key>                            fresh table with that local key
+//!   add <peer> <key> <naddrs> <conn>       `add_known_peer` (conn: n | c | k | x)
+//!   connected <peer> <key> <0|1>           `on_connection_established` (1 = dialer endpoint)
+//!   dialfail <peer> <key> <naddrs>         `on_dial_failure`
+//!   disconnected <peer> <key>              what `Kademlia::disconnect_peer` does with the table
+//!   entry <peer> <key>                     bare `entry`
+//!   closest <key> <limit>                  `closest`
+//!   iter <distance-hex>                    bucket visit order (`ClosestBucketsIter`, immediate repeats once)
+//!   dump                                   all non-empty buckets
+
+use super::{ClosestBucketsIter, RoutingTable};
+use crate::{
+    protocol::libp2p::kademlia::{
+        bucket::KBucketEntry,
+        types::{ConnectionType, Distance, KademliaPeer, Key, U256},
+    },
+    transport::Endpoint,
+    verif::{clear_key_overrides, peer, peer_index, set_key_override, unhex, VerifBox},
+    PeerId,
+};
+
+use multiaddr::Multiaddr;
+
+/// Peer index standing for the local node.
+const LOCAL: u64 = u64::MAX;
+/// Peer index whose dictated key is the lookup target.
+const TARGET: u64 = u64::MAX - 1;
+
+pub struct TableBox {
+    table: Option<RoutingTable>,
+}
+
+fn key_bytes(hex: &str) -> Option<[u8; 32]> {
+    if hex.len() != 64 || !hex.bytes().all(|b| b.is_ascii_hexdigit()) {
+        return None;
+    }
+    let mut out = [0u8; 32];
+    out.copy_from_slice(&unhex(hex));
+    Some(out)
+}
+
+fn conn(s: &str) -> Option<ConnectionType> {
+    match s {
+        "n" => Some(ConnectionType::NotConnected),
+        "c" => Some(ConnectionType::Connected),
+        "k" => Some(ConnectionType::CanConnect),
+        "x" => Some(ConnectionType::CannotConnect),
+        _ => None,
+    }
+}
+
+fn conn_char(c: ConnectionType) -> char {
+    match c {
+        ConnectionType::NotConnected => 'n',
+        ConnectionType::Connected => 'c',
+        ConnectionType::CanConnect => 'k',
+        ConnectionType::CannotConnect => 'x',
+    }
+}
+
+fn addresses(peer: u64, n: usize) -> Vec<Multiaddr> {
+    (0..n)
+        .map(|k| {
+            format!("/ip4/10.{}.{}.{}/tcp/{}", (peer >> 8) & 0xff, peer & 0xff, k & 0xff, 30000 + (k >> 8))
+                .parse()
+                .expect("valid multiaddr")
+        })
+        .collect()
+}
+
+fn show_peer(p: &PeerId) -> String {
+    match peer_index(p) {
+        Some(i) => i.to_string(),
+        None => "j".to_string(),
+    }
+}
+
+fn show_node(n: &KademliaPeer) -> String {
+    format!(
+        "{}/{}/{}",
+        show_peer(&n.peer),
+        conn_char(n.connection),
+        if n.address_store.is_empty() { 0 } else { 1 }
+    )
+}
+
+impl TableBox {
+    pub fn new() -> Self {
+        clear_key_overrides();
+        Self { table: None }
+    }
+
+    /// `Key::from(peer(i))` with the dictated key.
+    fn key(i: u64, bytes: [u8; 32]) -> (PeerId, Key<PeerId>) {
+        let p = peer(i);
+        set_key_override(p, bytes);
+        (p, Key::from(p))
+    }
+
+    fn show_bucket(table: &RoutingTable, index: usize) -> String {
+        let nodes: Vec<String> =
+            table.buckets[index].verif_nodes().iter().map(show_node).collect();
+        format!("{}:[{}]", index, nodes.join(","))
+    }
+
+    /// The bucket selected for `key` (what the operation may have touched), or `local`.
+    fn show_selected(table: &RoutingTable, key: &Key<PeerId>) -> String {
+        match table.local_key.distance(key).ilog2() {
+            None => "local".to_string(),
+            Some(i) => Self::show_bucket(table, i as usize),
+        }
+    }
+}
+
+impl VerifBox for TableBox {
+    fn step(&mut self, line: &str) -> String {
+        let t: Vec<&str> = line.split_whitespace().collect();
+        let num = |s: &str| s.parse::<u64>().ok().filter(|n| *n < TARGET);
+        match (t.as_slice(), self.table.as_mut()) {
+            (["local", key], _) => {
+                let Some(bytes) = key_bytes(key) else { return "bad-op".into() };
+                clear_key_overrides();
+                let (_, key) = Self::key(LOCAL, bytes);
+                self.table = Some(RoutingTable::new(key));
+                "ok".into()
+            }
+            (["add", p, key, naddrs, c], Some(table)) => {
+                let (Some(p), Some(bytes), Some(n), Some(c)) =
+                    (num(p), key_bytes(key), num(naddrs), conn(c))
+                else {
+                    return "bad-op".into();
+                };
+                let (peer, key) = Self::key(p, bytes);
+                table.add_known_peer(peer, addresses(p, n as usize), c);
+                Self::show_selected(table, &key)
+            }
+            (["connected", p, key, dialer], Some(table)) => {
+                let (Some(p), Some(bytes)) = (num(p), key_bytes(key)) else {
+                    return "bad-op".into();
+                };
+                let address: Multiaddr =
+                    format!("/ip4/10.99.{}.{}/tcp/7", (p >> 8) & 0xff, p & 0xff).parse().expect("multiaddr");
+                let endpoint = match *dialer {
+                    "1" => Endpoint::dialer(address, 0usize.into()),
+                    "0" => Endpoint::listener(address, 0usize.into()),
+                    _ => return "bad-op".into(),
+                };
+                let (_, key) = Self::key(p, bytes);
+                table.on_connection_established(key.clone(), endpoint);
+                Self::show_selected(table, &key)
+            }
+            (["dialfail", p, key, naddrs], Some(table)) => {
+                let (Some(p), Some(bytes), Some(n)) = (num(p), key_bytes(key), num(naddrs)) else {
+                    return "bad-op".into();
+                };
+                let (_, key) = Self::key(p, bytes);
+                // fresh addresses (disjoint from those of `add`)
+                let addrs: Vec<Multiaddr> = addresses(p, n as usize)
+                    .into_iter()
+                    .map(|a| a.with(multiaddr::Protocol::Udp(9)))
+                    .collect();
+                table.on_dial_failure(key.clone(), &addrs);
+                Self::show_selected(table, &key)
+            }
+            (["disconnected", p, key], Some(table)) => {
+                let (Some(p), Some(bytes)) = (num(p), key_bytes(key)) else {
+                    return "bad-op".into();
+                };
+                let (_, key) = Self::key(p, bytes);
+                if let KBucketEntry::Occupied(entry) = table.entry(key.clone()) {
+                    entry.connection = ConnectionType::NotConnected;
+                }
+                Self::show_selected(table, &key)
+            }
+            (["entry", p, key], Some(table)) => {
+                let (Some(p), Some(bytes)) = (num(p), key_bytes(key)) else {
+                    return "bad-op".into();
+                };
+                let (_, key) = Self::key(p, bytes);
+                let kind = match table.entry(key.clone()) {
+                    KBucketEntry::LocalNode => "local",
+                    KBucketEntry::Occupied(_) => "occupied",
+                    KBucketEntry::Vacant(_) => "vacant",
+                    KBucketEntry::NoSlot => "noslot",
+                };
+                format!("{} {}", kind, Self::show_selected(table, &key))
+            }
+            (["closest", key, limit], Some(table)) => {
+                let (Some(bytes), Some(limit)) = (key_bytes(key), num(limit)) else {
+                    return "bad-op".into();
+                };
+                let (_, target) = Self::key(TARGET, bytes);
+                let peers: Vec<String> = table
+                    .closest(&target, limit as usize)
+                    .iter()
+                    .map(|p| show_peer(&p.peer))
+                    .collect();
+                format!("[{}]", peers.join(","))
+            }
+            (["iter", d], _) => {
+                let Some(bytes) = key_bytes(d) else { return "bad-op".into() };
+                // visit order; an index repeated immediately is shown once (`closest` skips it)
+                let mut indices: Vec<usize> =
+                    ClosestBucketsIter::new(Distance(U256::from_big_endian(&bytes)))
+                        .map(|i| i.get())
+                        .collect();
+                indices.dedup();
+                let indices: Vec<String> = indices.iter().map(|i| i.to_string()).collect();
+                format!("[{}]", indices.join(","))
+            }
+            (["dump"], Some(table)) => {
+                let all: Vec<String> = (0..table.buckets.len())
+                    .filter(|i| !table.buckets[*i].verif_nodes().is_empty())
+                    .map(|i| Self::show_bucket(table, i))
+                    .collect();
+                all.join(";")
+            }
+            _ => "bad-op".into(),
+        }
+    }
+}
